@@ -197,3 +197,104 @@ Fixpoint wrun (aliasing : bool) (w : world) (ops : list (side * hop)) : world * 
   end.
 
 End WithGrowth.
+
+(* ==================================================================================== *)
+(* Swap maps with identities: handlerCtx.reInit (context.go) gives every message a context
+   whose swap is a NEW map holding a copy of the session's (socket's) swap entries, so what a
+   handler or plugin stores in ctx.Swap() stays with that message. goutil.Map values are
+   references: the heap below makes "the context holds the session's own map" expressible. *)
+Definition mheap := list swapmap.
+Record sworld := mkSW { sw_heap : mheap; sw_sock : option nat; sw_ctx : option nat }.
+Definition sworld_new : sworld := mkSW [] None None.
+
+Definition mread (hp : mheap) (o : option nat) : swapmap :=
+  match o with Some i => nth i hp [] | None => [] end.
+Definition sock_view (w : sworld) : swapmap := mread (sw_heap w) (sw_sock w).
+Definition ctx_view (w : sworld) : swapmap := mread (sw_heap w) (sw_ctx w).
+
+(* socket.Swap(): the map, created on first use *)
+Definition sw_sock_map (w : sworld) : sworld * nat :=
+  match sw_sock w with
+  | Some i => (w, i)
+  | None => (mkSW (sw_heap w ++ [[]]) (Some (length (sw_heap w))) (sw_ctx w), length (sw_heap w))
+  end.
+
+Definition copy_entries (m : swapmap) : swapmap := fold_left (fun a p => swap_store a (fst p) (snd p)) m [].
+
+(* handlerCtx.reInit. [aliasing = false] is the code: c.swap = goutil.RwMap(count) filled by
+   Range over the session swap. [aliasing = true] is the variant that hands out the session's
+   own map whenever it is non-empty. *)
+Definition sw_reinit (aliasing : bool) (w : sworld) : sworld :=
+  if aliasing && negb (is_nil (sock_view w)) then
+    let '(w1, i) := sw_sock_map w in mkSW (sw_heap w1) (sw_sock w1) (Some i)
+  else mkSW (sw_heap w ++ [copy_entries (sock_view w)]) (sw_sock w) (Some (length (sw_heap w))).
+
+Inductive wop :=
+| WReinit                         (* the next message on the session: getContext *)
+| WCtxStore (k v : bytes)         (* ctx.Swap().Store(k, v) by a handler or plugin *)
+| WSockStore (k v : bytes).       (* sess.Swap().Store(k, v) *)
+
+Definition sw_step (aliasing : bool) (w : sworld) (o : wop) : sworld :=
+  match o with
+  | WReinit => sw_reinit aliasing w
+  | WCtxStore k v =>
+      match sw_ctx w with
+      | Some i => mkSW (upd_nth i (swap_store (nth i (sw_heap w) []) k v) (sw_heap w)) (sw_sock w) (sw_ctx w)
+      | None => w
+      end
+  | WSockStore k v =>
+      let '(w1, i) := sw_sock_map w in
+      mkSW (upd_nth i (swap_store (nth i (sw_heap w1) []) k v) (sw_heap w1)) (sw_sock w1) (sw_ctx w1)
+  end.
+
+Definition sw_run (aliasing : bool) (w : sworld) (ops : list wop) : sworld := fold_left (sw_step aliasing) ops w.
+
+(* ==================================================================================== *)
+(* A pool under the one-Put-per-Get discipline. sync.Pool may hand out any pooled object or a
+   new one, and may drop its contents at any time, so Get carries the runtime's choice.
+   p_held lists the objects currently owned by some user. *)
+Record pstate := mkP { p_pool : list nat; p_held : list nat; p_next : nat }.
+Definition pool_new : pstate := mkP [] [] 0.
+
+Fixpoint remove_at {A} (i : nat) (l : list A) : list A :=
+  match l, i with
+  | [], _ => []
+  | _ :: r, O => r
+  | a :: r, S i' => a :: remove_at i' r
+  end.
+
+Inductive pop :=
+| PGet (choice : option nat)      (* Some i: the i-th pooled object (when there is one); None: a new one *)
+| PPut (i : nat)                  (* the holder of the i-th held object returns it: it owns it no more *)
+| PDrop                           (* the runtime empties the pool (GC) *)
+| PPutAgain (x : nat).            (* a second Put of an object the caller has already returned *)
+
+(* the object handed out by Get *)
+Definition pget_obj (st : pstate) (choice : option nat) : nat :=
+  match choice with
+  | Some i => match nth_error (p_pool st) i with Some x => x | None => p_next st end
+  | None => p_next st
+  end.
+
+Definition pstep (st : pstate) (o : pop) : pstate :=
+  match o with
+  | PGet choice =>
+      match choice with
+      | Some i =>
+          match nth_error (p_pool st) i with
+          | Some x => mkP (remove_at i (p_pool st)) (x :: p_held st) (p_next st)
+          | None => mkP (p_pool st) (p_next st :: p_held st) (S (p_next st))
+          end
+      | None => mkP (p_pool st) (p_next st :: p_held st) (S (p_next st))
+      end
+  | PPut i =>
+      match nth_error (p_held st) i with
+      | Some x => mkP (x :: p_pool st) (remove_at i (p_held st)) (p_next st)
+      | None => st
+      end
+  | PDrop => mkP [] (p_held st) (p_next st)
+  | PPutAgain x => mkP (x :: p_pool st) (p_held st) (p_next st)
+  end.
+
+Definition disciplined (o : pop) : bool := match o with PPutAgain _ => false | _ => true end.
+
